@@ -39,8 +39,8 @@
       literals, which the JSON reader guarantees).  The value types of c03 ([JV.jv], Flocq floats) and c12
       ([Encode.value], bit patterns) are different inductive types; no translation between them is proved.
       Two models of encodeString exist (c08/Preview.v index/slice-level with explicit Panic, c12/Encode.v list-level);
-      they are NOT proved equal here — each is tied to the Go code by its own correspondence stream; the [Example] at the end
-      only evaluates both on one string. *)
+      they ARE proved equal on every byte string in integ/EncodeStringAgree.v ([enc_string_agree], restated in
+      props/C08b.v), so the slicing-safety statement and the C12 output statements are about the same function. *)
 From Coq Require Import List ZArith NArith Bool String Lia.
 From Verif Require common.Sexp gen.GenTables gen.GenFlagTable.
 From Verif Require c09.Lexer c09.LexProofs.
@@ -150,10 +150,3 @@ Proof.
   - exact PreviewProofs.clean_exp_total.
   - intros fmt_float Hs v Hv. eexists. apply (DecodeProofs.decode_encode fmt_float Hs v Hv).
 Qed.
-
-(* sanity evaluation (a test, not a theorem): the two independent models of encodeString agree on the string of
-   C12_nonvacuous (control byte, quote, DEL, encoded surrogate, U+2028, truncated sequence) *)
-Example enc_string_models_agree_on_a_sample :
-  let s := [1; 34; 127; 0xED; 0xA0; 0x80; 0xE2; 0x80; 0xA8; 0xC3]%N in
-  Preview.enc_string Utf8Dec.decode_rune s = LR.Ok (Encode.encode_string s).
-Proof. vm_compute. reflexivity. Qed.
